@@ -21,3 +21,15 @@ def run(ctx):
                "of the files finalized at that moment and never to shrink")
     ctx.extra["reader_passes"] = sum(1 for s in scen for e in s["events"] if e["ev"] == "rpass")
     ctx.validate("DrfFsTrace", "DrfFsTrace.cfg", scen, label="stepped recording with readers", relevant=fc.relevance(PREFIXES))
+    # ---- free-running writer and reader processes (no common clock) -------------------------------------------
+    ctx.model_check("MCDrfLive", "MCDrfLive.cfg", coverage=False)
+    ctx.model_check("MCDrfLive", "MCDrfLive_W.cfg", expect_violated=("W_AlwaysPrefix",), coverage=False, tag="W_live")
+    live = []
+    with quiet_stderr():
+        for i in range(ctx.pick(4, 40)):
+            live.append(fs_drv.free_running(env, drf, rng, ctx.seed * 733 + i, "live%d" % i))
+    ctx.extra["free_running_runs"] = len(live)
+    ctx.extra["free_running_distinct_passes"] = sum(s["passes"] for s in live)
+    if live:
+        ctx.sample({"name": live[0]["name"], "config": live[0]["desc"], "files": live[0]["files"][:3], "events": live[0]["events"][:4]})
+    ctx.validate("DrfLiveTrace", "DrfLiveTrace.cfg", live, label="free-running readers", relevant=fc.relevance(PREFIXES))
